@@ -13,7 +13,7 @@ applies=no; builds=no; tests=unknown; demo_with=unknown; demo_without=unknown
 if git -C "$WT" apply --check "$SRC/patch.diff" 2>/dev/null; then applies=yes
 elif git -C "$WT" apply -3 "$SRC/patch.diff" 2>/dev/null && [ -z "$(git -C "$WT" diff --name-only --diff-filter=U)" ]; then
   # the patch was written against an older HEAD: keep the 3-way merged result as the patch of record
-  applies=rebased; git -C "$WT" diff HEAD > "$SRC/patch.rebased.diff"; cp "$SRC/patch.rebased.diff" "$SRC/patch.diff"; git -C "$WT" checkout -- . ; git -C "$WT" reset -q
+  applies=rebased; git -C "$WT" diff HEAD > "$SRC/patch.rebased.diff"; cp "$SRC/patch.rebased.diff" "$SRC/patch.diff"; git -C "$WT" reset -q --hard HEAD
 else echo "{\"name\": \"$NAME\", \"patch_applies\": \"no\"}"; git -C "$WT" checkout -- . 2>/dev/null; git -C /repo worktree remove --force "$WT"; exit 3; fi
 # demo without patch
 if [ -x "$SRC/run_demo.sh" ]; then (cd "$SRC" && timeout 900 ./run_demo.sh "$WT" >/tmp/seed-$NAME-without.log 2>&1) && demo_without=pass || demo_without=fail; fi
